@@ -234,6 +234,9 @@ def run_unit(unit, repo, scratch, features=None, rlimit=30, multiple_errors=4, t
                                   for t in sp['text'])
         if kind in ('post', 'invariant') and (re.search(r'\bp?steps\b', clause) or re.match(r'\s*(res is Ok ==> )?(ssize|ssize_seq|cost)\(', clause)):
             kind = 'cost'
+        # a loop invariant that only restates the value specification of the node is a value clause, not an iteration cap
+        if kind == 'invariant' and re.match(r'\s*(spec_eval\(expr\) is Free|!\(expr is Med\))', clause):
+            kind = 'post'
         # the progress clause of a parser method (a successful call consumes a token): the measure of the parser's loops and recursion
         if kind == 'post' and re.match(r'\s*res is Ok ==> final\(self\)\.stream\(\)\.len\(\) < old\(self\)\.stream\(\)\.len\(\)\s*$', clause):
             kind = 'progress'
